@@ -91,6 +91,9 @@ def code_fields(ver):
     return out
 
 
+_PATH = []
+
+
 def canon(x, _depth=0):
     """canonical tree of a *native* object of the running interpreter"""
     if x is None:
@@ -117,13 +120,27 @@ def canon(x, _depth=0):
     if t is tuple:
         return {"t": "tuple", "v": [canon(e, _depth + 1) for e in x]}
     if t is list:
-        return {"t": "list", "v": [canon(e, _depth + 1) for e in x]}
+        # a list (or dict) may contain itself (the marshal format can express that from 3.4 on): a reference back to a
+        # container that is still being walked is written as the distance up the path
+        if id(x) in _PATH:
+            return {"t": "cycle", "v": len(_PATH) - _PATH.index(id(x))}
+        _PATH.append(id(x))
+        try:
+            return {"t": "list", "v": [canon(e, _depth + 1) for e in x]}
+        finally:
+            _PATH.pop()
     if t is set or t is frozenset:
         items = [canon(e, _depth + 1) for e in x]
         items.sort(key=lambda d: json.dumps(d, sort_keys=True))
         return {"t": "set" if t is set else "frozenset", "v": items}
     if t is dict:
-        items = [[canon(k, _depth + 1), canon(v, _depth + 1)] for k, v in x.items()]
+        if id(x) in _PATH:
+            return {"t": "cycle", "v": len(_PATH) - _PATH.index(id(x))}
+        _PATH.append(id(x))
+        try:
+            items = [[canon(k, _depth + 1), canon(v, _depth + 1)] for k, v in x.items()]
+        finally:
+            _PATH.pop()
         items.sort(key=lambda kv: json.dumps(kv[0], sort_keys=True))
         return {"t": "dict", "v": items}
     if t is types.CodeType:
